@@ -274,8 +274,8 @@ def classify(w):
 
 
 GENS = {
-    "roundtrip": Gen(case_roundtrip, 2400, 240000),
-    "filters": Gen(case_filters, 800, 80000),
+    "roundtrip": Gen(case_roundtrip, 2400, 2000000),
+    "filters": Gen(case_filters, 800, 600000),
     "reject": Gen(case_reject, 60, 600),
 }
 MIN_EVALS = {"round-trip": 3000, "energy-per-channel-use": 3000, "encode-shape": 3000,
